@@ -134,6 +134,10 @@ def install(interp):
 
     @reg(builtins.enumerate)
     def _enumerate(it, args, kwargs):
+        if isinstance(args[0], (Sym, SymList)) and isinstance(args[0].ty, TSeq) and it.concrete_length(args[0]) is None:
+            from .core import SymEnum
+
+            return SymEnum(args[0], args[1] if len(args) > 1 else kwargs.get("start", 0))
         items = it.iterate_concrete(args[0], what="enumerate")
         start = args[1] if len(args) > 1 else kwargs.get("start", 0)
         return [(i + start, x) for i, x in enumerate(items)]
